@@ -139,7 +139,16 @@ class _Map(dict):
 def reported_lines(exc):
     nums = []
     for e in exc.exceptions:
-        m = re.search(r"line (\d+)", str(e.args[0]))
+        # the property fixes that the number is named, not how the message is worded
+        if isinstance(getattr(e, "lineno", None), int):
+            nums.append(e.lineno)
+            continue
+        text = " ".join([str(a) for a in e.args[:1]] + list(getattr(e, "__notes__", [])))
+        m = None
+        for pat in (r"\blines?\s*(?:number|no\.?|#)?\s*[:=]?\s*(\d+)", r"\blineno\s*[:=]?\s*(\d+)", r"\bl\.\s*(\d+)", r"^\s*(\d+)\s*:", r":(\d+):"):
+            m = re.search(pat, text, re.IGNORECASE)
+            if m:
+                break
         nums.append(int(m.group(1)) if m else None)
     return nums
 
